@@ -464,4 +464,224 @@ Proof.
   reflexivity.
 Qed.
 
+(* ---------- a file entry, legacy exchange (protocol 1): stop and wait ---------- *)
+Fixpoint dbl (n : nat) : nat := match n with O => O | S m => S (S (dbl m)) end.
+Lemma dbl_spec n : dbl n = (2 * n)%nat.
+Proof. induction n; cbn [dbl]; lia. Qed.
+
+Fixpoint v1_log (c : tr_cfg) (e : tr_entry) (ch : list byte) (chs : list (list byte)) : list (bool * msg) :=
+  (false, TrSuccInt digest (tr_blen ch)) ::
+  match chs with
+  | [] => [(true, TrMd5 digest (H (te_data e)))]
+  | ch' :: chs' => (true, TrData digest (tr_v1_payload zl c ch')) :: v1_log c e ch' chs'
+  end.
+
+Lemma bytes_ok_app a b : bytes_ok (a ++ b) = bytes_ok a && bytes_ok b.
+Proof. apply forallb_app. Qed.
+
+Lemma blen_app a b : tr_blen (a ++ b) = tr_blen a + tr_blen b.
+Proof. unfold tr_blen. rewrite app_length. lia. Qed.
+
+Lemma r_v1_ok c left st names sch p size w ch : table_ok c -> bytes_ok ch = true ->
+  tr_r_v1 digest unzl c (mkRS (RpV1 p size w) left st names sch) p size w (tr_v1_payload zl c ch) =
+  (mkRS (if tr_blen (w ++ ch) <? size then RpV1 p size (w ++ ch) else RpMd5 p (w ++ ch)) left st names sch,
+   [TrSuccInt digest (tr_blen ch)]).
+Proof.
+  intros Ht Hb. unfold tr_r_v1, tr_v1_payload.
+  rewrite (v1_roundtrip zl unzl zl_roundtrip zl_bytes (tc_binary c) (tc_table c) ch Ht Hb). reflexivity.
+Qed.
+
+Lemma v1_loop c d e sc rest names p left st rnames sch : table_ok c -> te_isdir e = false ->
+  forall chs ch w log, bytes_ok (te_data e) = true -> all_nonempty (ch :: chs) = true ->
+  w ++ ch ++ concat chs = te_data e ->
+  runf (dbl (length (ch :: chs))) c d
+    (mkConf digest (mkSS (SpV1 chs (tr_blen ch)) ((e, sc) :: rest) names) (mkRS (RpV1 p (te_size e) w) left st rnames sch)
+       [TrData digest (tr_v1_payload zl c ch)] [] log) =
+  mkConf digest (mkSS SpMd5 ((e, sc) :: rest) names) (mkRS (RpMd5 p (te_data e)) left st rnames sch)
+    [TrMd5 digest (H (te_data e))] [] (log ++ v1_log c e ch chs).
+Proof.
+  intros Ht Hd. induction chs as [|ch2 chs IH]; intros ch w log Hb Hne Hw.
+  - cbn [length dbl concat] in *. rewrite app_nil_r in Hw.
+    assert (Hbc : bytes_ok ch = true).
+    { rewrite <- Hw, bytes_ok_app in Hb. apply andb_true_iff in Hb. tauto. }
+    rewrite (run_S _ _ _ _ _ (step_recv' _ _ _ _ _ _ _ _)), rcv_v1, (r_v1_ok c _ _ _ _ _ _ _ ch Ht Hbc). cbn [fst snd app].
+    rewrite Hw, (size_file e Hd), N.ltb_irrefl.
+    rewrite (run_one _ _ _ _ (step_send' _ _ _ _ _ _ _)), snd_v1. cbn [fst snd v1_log].
+    norm_log. reflexivity.
+  - cbn [length dbl] in *. cbn [concat] in Hw.
+    cbn [all_nonempty forallb] in Hne. apply andb_true_iff in Hne as [Hn1 Hn2].
+    assert (Hbc : bytes_ok ch = true).
+    { rewrite <- Hw, !bytes_ok_app in Hb. repeat (apply andb_true_iff in Hb as [Hb ?]). rewrite !andb_true_iff in *. tauto. }
+    rewrite (run_S _ _ _ _ _ (step_recv' _ _ _ _ _ _ _ _)), rcv_v1, (r_v1_ok c _ _ _ _ _ _ _ ch Ht Hbc). cbn [fst snd app].
+    assert (Hlt : tr_blen (w ++ ch) <? te_size e = true).
+    { apply N.ltb_lt. rewrite (size_file e Hd), <- Hw. rewrite app_assoc, (blen_app (w ++ ch)), blen_app.
+      cbn [forallb] in Hn2. apply andb_true_iff in Hn2 as [Hn2 _]. destruct ch2; [discriminate|].
+      assert (0 < tr_blen ((b :: ch2) ++ concat chs)) by (unfold tr_blen; cbn [app length]; lia). lia. }
+    rewrite Hlt.
+    rewrite (run_S _ _ _ _ _ (step_send' _ _ _ _ _ _ _)), snd_v1. cbn [fst snd].
+    rewrite (IH ch2 (w ++ ch) _ Hb Hn2) by (rewrite <- app_assoc; exact Hw).
+    cbn [v1_log]. norm_log. reflexivity.
+Qed.
+
+Lemma wire_frames_nil sizes dflt : wire_frames sizes dflt [] = [].
+Proof. unfold wire_frames. destruct (next_size sizes dflt). reflexivity. Qed.
+
+Definition v1_data_log (c : tr_cfg) (e : tr_entry) (sc : tr_sched) : list (bool * msg) :=
+  match tr_v1_chunks e sc with
+  | [] => [(true, TrMd5 digest (H (te_data e)))]
+  | ch :: chs => (true, TrData digest (tr_v1_payload zl c ch)) :: v1_log c e ch chs
+  end.
+
+Definition file_log_v1 (c : tr_cfg) (e : tr_entry) (sc : tr_sched) (ln : name) : list (bool * msg) :=
+  [(true, TrName digest (tr_payload c e)); (false, name_reply c ln 0);
+   (true, TrSize digest (te_size e)); (false, TrSuccInt digest (te_size e))]
+  ++ v1_data_log c e sc ++ [(false, TrSuccDigest digest (H (te_data e)))].
+
+Lemma r_size_v1 c e left st names sch : tr_pipeline c = false ->
+  tr_r_size digest c (mkRS (RpSize (tr_payload c e)) left st names sch) (tr_payload c e) (te_size e) =
+  (mkRS (if 0 <? te_size e then RpV1 (tr_payload c e) (te_size e) [] else RpMd5 (tr_payload c e) []) left st names sch,
+   [TrSuccInt digest (te_size e)]).
+Proof. intro Hp. unfold tr_r_size. rewrite Hp. destruct (0 <? te_size e); reflexivity. Qed.
+
+Definition steps_v1 (e : tr_entry) (sc : tr_sched) : nat :=
+  1 + (1 + (1 + (1 + (dbl (length (tr_v1_chunks e sc)) + (1 + 1))))).
+
+Lemma entry_file_v1 c d e sc ess st names L ln st' :
+  tr_pipeline c = false -> table_ok c -> bytes_ok (te_data e) = true ->
+  te_isdir e = false -> tr_spec_entry c d e st = Some (ln, st') ->
+  runf (steps_v1 e sc) c d (between c ((e, sc) :: ess) st names L) =
+  between c ess st' (tr_add_name names ln) (L ++ file_log_v1 c e sc ln).
+Proof.
+  intros Hp Ht Hb Hd Hs. rewrite between_cons. unfold steps_v1.
+  rewrite run_add, (run_one _ _ _ _ (step_recv' _ _ _ _ _ _ _ _)), rcv_name,
+    (r_name_file c d e (length ess) st names sc (map snd ess) ln st' Hd Hs). cbn [fst snd app].
+  rewrite run_add, (run_one _ _ _ _ (step_send' _ _ _ _ _ _ _)), snd_name.
+  replace (if tr_json_names c then 0 else 0) with 0 by (destruct (tr_json_names c); reflexivity).
+  unfold tr_s_named. rewrite Hd, N.ltb_irrefl. cbn [ss_names ss_todo fst snd].
+  rewrite run_add, (run_one _ _ _ _ (step_recv' _ _ _ _ _ _ _ _)), rcv_size, (r_size_v1 c e _ _ _ _ Hp). cbn [fst snd app].
+  rewrite run_add, (run_one _ _ _ _ (step_send' _ _ _ _ _ _ _)), snd_size.
+  unfold tr_s_data. rewrite Hp. unfold file_log_v1, v1_data_log.
+  pose proof (frames_concat (sc_sizes sc) (sc_dflt sc) (te_data e)) as Hcat.
+  pose proof (frames_nonempty (sc_sizes sc) (sc_dflt sc) (te_data e)) as Hne.
+  fold (tr_v1_chunks e sc) in Hcat, Hne.
+  destruct (tr_v1_chunks e sc) as [|ch chs] eqn:Ech.
+  - (* empty file: MD5 at once *)
+    cbn [concat] in Hcat. cbn [length dbl plus].
+    assert (Hz : 0 <? te_size e = false) by (rewrite (size_file e Hd), <- Hcat; reflexivity).
+    rewrite Hz. unfold tr_s_md5. cbn [fst snd ss_todo ss_names].
+    rewrite Hcat.
+    rewrite (run_S _ _ _ _ _ (step_recv' _ _ _ _ _ _ _ _)), rcv_md5,
+      (r_md5_ok c d e (length ess) st (tr_add_name names ln) sc (map snd ess) ln st' Hd Hs). cbn [fst snd app].
+    rewrite (run_one _ _ _ _ (step_send' _ _ _ _ _ _ _)), snd_md5.
+    unfold between.
+    destruct (r_next c (length ess) st' (tr_add_name names ln) (map snd ess)) as [rn ro].
+    destruct (s_next c ess (tr_add_name names ln)) as [sn so]. cbn [fst snd].
+    f_equal. norm_log. reflexivity.
+  - assert (Hz : 0 <? te_size e = true).
+    { apply N.ltb_lt. rewrite (size_file e Hd), <- Hcat. cbn [all_nonempty forallb] in Hne.
+      apply andb_true_iff in Hne as [Hn _]. destruct ch; [discriminate|]. unfold tr_blen. cbn [concat app length]. lia. }
+    rewrite Hz. cbn [fst snd ss_todo ss_names].
+    rewrite run_add, (v1_loop c d e sc ess (tr_add_name names ln) _ _ _ _ _ Ht Hd chs ch [] _ Hb Hne Hcat).
+    rewrite run_add, (run_one _ _ _ _ (step_recv' _ _ _ _ _ _ _ _)), rcv_md5,
+      (r_md5_ok c d e (length ess) st (tr_add_name names ln) sc (map snd ess) ln st' Hd Hs). cbn [fst snd app].
+    rewrite (run_one _ _ _ _ (step_send' _ _ _ _ _ _ _)), snd_md5.
+    unfold between.
+    destruct (r_next c (length ess) st' (tr_add_name names ln) (map snd ess)) as [rn ro].
+    destruct (s_next c ess (tr_add_name names ln)) as [sn so]. cbn [fst snd].
+    f_equal. norm_log. reflexivity.
+Qed.
+
+(* ---------- all entries ---------- *)
+Definition entry_log (c : tr_cfg) (es : tr_entry * tr_sched) (ln : name) : list (bool * msg) :=
+  if te_isdir (fst es) then dir_log c (fst es) ln
+  else if tr_pipeline c then file_log_v2 c (fst es) (snd es) ln
+  else file_log_v1 c (fst es) (snd es) ln.
+
+Fixpoint all_log (c : tr_cfg) (ess : list (tr_entry * tr_sched)) (per : list name) : list (bool * msg) :=
+  match ess, per with
+  | es :: ess', ln :: per' => entry_log c es ln ++ all_log c ess' per'
+  | _, _ => []
+  end.
+
+Lemma entry_steps_eq c e sc : tr_entry_steps digest zcomp c (e, sc) =
+  if te_isdir e then 2%nat else if tr_pipeline c then steps_v2 c e sc else steps_v1 e sc.
+Proof.
+  unfold tr_entry_steps, steps_v2, steps_v1, prefinal_of. rewrite dbl_spec.
+  destruct (te_isdir e); [reflexivity|]. destruct (tr_pipeline c); lia.
+Qed.
+
+Definition entries_steps (c : tr_cfg) (ess : list (tr_entry * tr_sched)) : nat :=
+  fold_right (fun es n => tr_entry_steps digest zcomp c es + n)%nat 0%nat ess.
+
+Lemma run_entries c d : table_ok c -> forall ess st names L per all stf,
+  Forall (fun es => bytes_ok (te_data (fst es)) = true) ess ->
+  tr_spec c d (map fst ess) st names = Some (per, all, stf) ->
+  runf (entries_steps c ess) c d (between c ess st names L) = between c [] stf all (L ++ all_log c ess per).
+Proof.
+  intros Ht. induction ess as [|[e sc] ess IH]; intros st names L per all stf Hb Hs.
+  - cbn in Hs. inversion Hs; subst. cbn [entries_steps fold_right tr_run_from all_log]. rewrite app_nil_r. reflexivity.
+  - cbn [map fst tr_spec] in Hs. destruct (tr_spec_entry c d e st) as [[ln st1]|] eqn:Ee; [|discriminate].
+    destruct (tr_spec c d (map fst ess) st1 (tr_add_name names ln)) as [[[per' all'] stf']|] eqn:Er; [|discriminate].
+    inversion Hs; subst. inversion Hb as [|? ? Hb1 Hb2]; subst. cbn [fst] in Hb1.
+    unfold entries_steps. cbn [fold_right]. fold (entries_steps c ess). rewrite run_add.
+    cbn [all_log]. unfold entry_log. cbn [fst snd]. rewrite entry_steps_eq.
+    destruct (te_isdir e) eqn:Hd.
+    + rewrite (entry_dir c d e sc ess st names L ln st1 Hd Ee).
+      rewrite (IH _ _ _ _ _ _ Hb2 Er), <- app_assoc. reflexivity.
+    + destruct (tr_pipeline c) eqn:Hp.
+      * rewrite (entry_file_v2 c d e sc ess st names L ln st1 Hp Ht Hb1 Hd Ee).
+        rewrite (IH _ _ _ _ _ _ Hb2 Er), <- app_assoc. reflexivity.
+      * rewrite (entry_file_v1 c d e sc ess st names L ln st1 Hp Ht Hb1 Hd Ee).
+        rewrite (IH _ _ _ _ _ _ Hb2 Er), <- app_assoc. reflexivity.
+Qed.
+
+(* ---------- the whole run ---------- *)
+Definition full_log (c : tr_cfg) (ess : list (tr_entry * tr_sched)) (per all : list name) : list (bool * msg) :=
+  [(true, TrNum digest (N.of_nat (length ess))); (false, TrSuccInt digest (N.of_nat (length ess)))]
+  ++ all_log c ess per ++ [(tc_upload c, TrExit digest all)].
+
+Lemma fuel_eq c ess : tr_fuel digest zcomp c ess = (2 + (entries_steps c ess + 1))%nat.
+Proof.
+  unfold tr_fuel, entries_steps. f_equal. induction ess as [|es ess IH]; [reflexivity|]. cbn [fold_right]. rewrite IH. lia.
+Qed.
+
+Lemma init_two_steps c d ess f0 :
+  runf 2 c d (tr_init digest c ess f0) =
+  between c ess (init_state f0) []
+    [(true, TrNum digest (N.of_nat (length ess))); (false, TrSuccInt digest (N.of_nat (length ess)))].
+Proof.
+  unfold tr_init, tr_sender_init, tr_receiver_init.
+  rewrite (run_S _ _ _ _ _ (step_recv' _ _ _ _ _ _ _ _)), rcv_num, Nat2N.id. cbn [fst snd app].
+  rewrite (run_one _ _ _ _ (step_send' _ _ _ _ _ _ _)), snd_num.
+  unfold between.
+  destruct (r_next c (length ess) (init_state f0) [] (map snd ess)) as [rn ro].
+  destruct (s_next c ess []) as [sn so]. cbn [fst snd]. f_equal; norm_log; reflexivity.
+Qed.
+
+Definition final_conf (c : tr_cfg) (stf : state) (all : list name) (log : list (bool * msg)) : conf :=
+  mkConf digest (mkSS SpDone [] all) (mkRS RpDone O stf all []) [] [] log.
+
+Lemma last_step c d stf all L :
+  runf 1 c d (between c [] stf all L) = final_conf c stf all (L ++ [(tc_upload c, TrExit digest all)]).
+Proof.
+  unfold between, final_conf. cbn [tr_s_next tr_r_next length map]. destruct (tc_upload c) eqn:Hu; cbn [fst snd].
+  - rewrite (run_one _ _ _ _ (step_recv' _ _ _ _ _ _ _ _)), rcv_exit. cbn [fst snd]. f_equal; norm_log; rewrite ?app_nil_r; reflexivity.
+  - rewrite (run_one _ _ _ _ (step_send' _ _ _ _ _ _ _)), snd_exit. cbn [fst snd]. f_equal; norm_log; rewrite ?app_nil_r; reflexivity.
+Qed.
+
+Lemma final_stuck c d stf all log : stepc c d (final_conf c stf all log) = None.
+Proof. reflexivity. Qed.
+
+Theorem run_complete c d ess f0 per all stf : table_ok c ->
+  Forall (fun es => bytes_ok (te_data (fst es)) = true) ess ->
+  tr_spec c d (map fst ess) (init_state f0) [] = Some (per, all, stf) ->
+  forall fuel, (tr_fuel digest zcomp c ess <= fuel)%nat ->
+  tr_run digest H deq zcomp zdecomp zl unzl fuel c d ess f0 = final_conf c stf all (full_log c ess per all).
+Proof.
+  intros Ht Hb Hs fuel Hf. unfold tr_run.
+  replace fuel with (tr_fuel digest zcomp c ess + (fuel - tr_fuel digest zcomp c ess))%nat by lia.
+  rewrite run_add, fuel_eq, run_add, init_two_steps, run_add, (run_entries c d Ht ess _ _ _ per all stf Hb Hs), last_step.
+  rewrite run_stuck by apply final_stuck. unfold full_log. norm_app. reflexivity.
+Qed.
+
 End TransferProofs.
